@@ -100,4 +100,30 @@ def handleDefective (edit : Bytes → Bytes) (i : In) : List Ev × List Fw :=
 /-- a message counts as forwarded when something was written and the write succeeded -/
 def forwarded (i : In) (out : List Ev × List Fw) : Bool := i.writeOK && !out.2.isEmpty
 
+/-! ## histories: which memory an event's `Data()` points to
+
+`Data()` returns a slice; a subscriber may keep it while the handler goes on reading packets (events are
+dispatched with FireParallel).  `Store` is the memory of byte buffers; event `k` of a history points to
+buffer `k`.  The code allocates a FRESH buffer per event (`make`+`copy` in cp/ci/bp/bc, the freshly
+decoded packet's own slice in cc): `allocFresh`.  `allocScratch` is the defective alternative — one
+reusable scratch buffer per handler (`append(buf[:0], body...)`), kept for the `_fails` witness. -/
+
+abbrev Store := List Bytes
+
+/-- handle the bodies of a history one after the other, a fresh buffer each -/
+def allocFresh : Store → List Bytes → Store
+  | st, [] => st
+  | st, b :: bs => allocFresh (st ++ [b]) bs
+
+/-- what event `k` exposes when its subscriber looks (again) after the whole history was handled -/
+def lateView (st : Store) (k : Nat) : Option Bytes := st[k]?
+
+/-- one shared scratch array: each new body overwrites its beginning; event `k` still sees its own
+    length `lens[k]` of it -/
+def allocScratch : (Bytes × List Nat) → List Bytes → (Bytes × List Nat)
+  | acc, [] => acc
+  | (arr, lens), b :: bs => allocScratch (b ++ arr.drop b.length, lens ++ [b.length]) bs
+
+def lateViewScratch (acc : Bytes × List Nat) (k : Nat) : Option Bytes := acc.2[k]?.map fun n => acc.1.take n
+
 end Gate.C25
